@@ -228,3 +228,26 @@ Theorem tspec_agrees : forall w depth start cw f pt i,
    if p_write pt && ai_en i && ai_wen i then arr_upd f (ai_addr i) (ai_wdata i) else f).
 Proof. exact tspec_agrees_proof. Qed.
 Print Assumptions tspec_agrees.
+
+(* ------------------------------------------------------------------ *)
+(* post-processing clause, per design: circuits WITH memories (NetMemDefs.v: Node_Memory /
+   Node_MemPort evaluated with mem_read / mem_latch_write / mem_commit of MemDefs.v inside the
+   netlist cycle semantics) validated by the machine-generic certificate checker
+   (MachineCert.v).  If the extracted checker accepts a certificate for the constructed
+   circuit A and the post-processed circuit B, then for ALL stimulus sequences and ALL cycles
+   B's pins never contradict A's and are identical while A's run (all node values and all
+   memory words) is free of undefined values. *)
+From Gatery Require Import NodeSemDefs NetDefs ProductCert MachineCert NetMemDefs.
+
+Theorem C07_postprocess_cert_sound :
+  forall (a b : mnetlist) (ma mb : list memory) (sc : schedule) (ws : list nat) (sigma : nat -> list bv),
+  (forall t, ins_wf ws (sigma t)) ->
+  forall layers, gcheck_cert MRefine (machine_of a ma) (machine_of b mb) sc ws layers = true ->
+  forall t, Forall2 bv_compat (mout_at sc sigma (machine_of a ma) t) (mout_at sc sigma (machine_of b mb) t) /\
+            (gclean_upto (machine_of a ma) sc sigma t = true ->
+             mout_at sc sigma (machine_of b mb) t = mout_at sc sigma (machine_of a ma) t).
+Proof.
+  intros a b ma mb sc ws sigma Hs layers H.
+  exact (gcert_sound MRefine (machine_of a ma) (machine_of b mb) sc ws sigma Hs layers eq_refl H).
+Qed.
+Print Assumptions C07_postprocess_cert_sound.
